@@ -22,14 +22,14 @@ TRUSTED = ['pbt/cellsim.py', 'pbt/mastersim.py', 'pbt/fakezk.py', 'pbt/oracles.p
 BUDGET = {'quick': 6000, 'thorough': 160000}
 
 PROFILE = {
-    'weights': {'app': 12, 'down': 6, 'up': 3, 'freeze': 3, 'unfreeze': 2,
-                'bl': 3, 'adv': 4, 'adv_ret': 6},
-    'force': ['down', 'adv_ret'],
+    'weights': {'app': 12, 'down': 4, 'up': 3, 'freeze': 3, 'unfreeze': 2,
+                'bl': 3, 'adv': 4, 'adv_ret': 4, 'downseq': 5},
+    'force': ['down', 'adv_ret', 'downseq'],
     'lease': False,
 }
 
 
-E2_PROFILE = {'weights': {'app': 12, 'down': 6, 'up': 3, 'state': 5, 'bl': 3, 'adv': 4, 'adv_ret': 6, 'restart': 2, 'integrity': 2, 'running': 2}, 'force': ['down', 'adv_ret'], 'lease': False}
+E2_PROFILE = {'weights': {'app': 12, 'down': 6, 'up': 3, 'state': 5, 'bl': 3, 'adv': 4, 'adv_ret': 4, 'downseq': 5, 'restart': 2, 'integrity': 2, 'running': 2}, 'force': ['down', 'adv_ret', 'downseq'], 'lease': False}
 
 
 def strategy(tier):
